@@ -64,10 +64,13 @@ class InMemoryFederatedData(federated_data.FederatedData):
     self._preprocess_batch = preprocess_batch
     self._client_to_data_mapping = client_to_data_mapping
     self._client_ids = sorted(self._client_to_data_mapping.keys())
-    self._features = list(
-        self._client_to_data_mapping[self._client_ids[0]].keys())
+    # The features of the first client are the reference all other clients are
+    # checked against. A view without clients (e.g. an empty slice) has none.
+    self._features = None
     for client_id in self._client_ids:
       dataset = self._client_to_data_mapping[client_id]
+      if self._features is None:
+        self._features = list(dataset.keys())
       if list(dataset.keys()) != self._features:
         raise ValueError(
             f'Inconsistent features, got {list(dataset.keys())} for client {client_id}, expect {self._features}'
